@@ -20,7 +20,6 @@ svars == <<script, seg, left, fam, kf>>
 allvars == <<vars, svars>>
 
 NoSeg == [i |-> InOf(NoObs), k |-> <<>>, d |-> 0]
-SInit == script = <<>> /\ seg = NoSeg /\ left = 0 /\ fam = "" /\ kf = KfInit
 
 TVal(name) == CASE name = "T2P5US" -> T2P5US [] name = "T5US" -> T5US [] name = "T200US" -> T200US
                 [] name = "T1MS" -> T1MS [] name = "T2MS" -> T2MS [] name = "T2P5MS" -> T2P5MS
@@ -43,7 +42,7 @@ TGlitch(c) == {<<S(x, c, <<>>, d)>> : x \in 0..3, d \in 1..2}
 \* T2P5US+ds cycles or (gl) it is interrupted by a one-cycle glitch after T2P5US-1 cycles.
 ChirpEl(c, idx, sp, ds, gl) ==
   LET ls == IF idx % 2 = 1 THEN FSK ELSE FSJ IN
-  IF idx # sp THEN <<S(ls, c, <<"T2P5US">>, 2 + (idx % 2))>>
+  IF idx # sp THEN <<S(ls, c, <<"T2P5US">>, 2)>>        \* just long enough for the designed sequencer
   ELSE IF gl THEN <<S(ls, c, <<"T2P5US">>, -1), S(SE0, c, <<>>, 1), S(ls, c, <<"T2P5US">>, 2)>>
   ELSE <<S(ls, c, <<"T2P5US">>, ds)>>
 RECURSIVE ChirpSeq(_, _, _, _, _, _)
@@ -71,6 +70,7 @@ THsMisc(c) == {<<S(x, c, <<>>, d)>> : x \in {FSJ, FSK}, d \in 1..2}
                                                       [c EXCEPT !.vbus = FALSE]}, d \in 1..4}
               \cup {<<S(FSK, [c EXCEPT !.disc = TRUE], <<"T2P5US">>, d), S(FSJ, c, <<>>, 3)>> : d \in {-1, 2}}
 TSusp(c)   == {<<S(ResumeOf(c), c, <<>>, d)>> : d \in 1..3}
+              \cup {<<S(SE0, c, <<"T2P5US", "T2MS", "T2P5MS">>, d), S(IdleOf(c), c, <<>>, 3)>> : d \in 4..6}
               \cup {<<S(SE0, c, <<"T2P5US">>, d)>> : d \in -2..3}
               \cup {<<S(SE0, [c EXCEPT !.fso = TRUE], <<"T2P5US">>, d), S(FSJ, c, <<>>, 2)>> : d \in 1..3}
               \cup {<<S(IdleOf(c), [c EXCEPT !.lso = ~c.lso], <<>>, 2)>>}
@@ -104,6 +104,15 @@ Family(f) ==
 
 \* Clean scripts: the step must not hit the trigger of an open finding (the behaviour ends there otherwise).
 Clean == kf' = KfEval(kf, mon', obs') /\ kf'.tags = {}
+
+\* A behaviour starts from scratch, in high-speed operation, or in a suspend entered from high speed
+\* (so that the deep histories -- HS suspend, reset from it, failed handshake, FS suspend, resume -- are
+\* within reach of a few hundred simulated cycles).
+HsPrefix == <<S(FSJ, Ctl0, <<>>, 4), S(SE0, Ctl0, <<"T5US", "T2MS">>, 4)>>
+            \o ChirpSeq(Ctl0, 1, 6, 0, 0, FALSE) \o <<S(SE0, Ctl0, <<>>, 6)>>
+HsSuspendPrefix == HsPrefix \o <<S(SE0, Ctl0, <<"T3MS">>, -4), S(FSJ, Ctl0, <<"T200US">>, 3)>>
+Prefixes == {<<>>, HsPrefix, HsSuspendPrefix}
+SInit == script \in Prefixes /\ seg = NoSeg /\ left = 0 /\ fam = "" /\ kf = KfInit
 
 SFamily == /\ left = 0 /\ script = <<>> /\ fam = ""
            /\ fam' \in Families(obs)
